@@ -14,7 +14,7 @@ pub static DEF: PropDef = PropDef {
     level: "exploration",
     rule: "cases: a generated pool of inputs (valid and invalid streams, files with and without embedded streams) and \
 generated call histories over it. (1) history independence: a sequence of ~40 calls of expand_zlib_chunks / \
-recreated_zlib_chunks / decompress_deflate_stream(verify in {false,true}) / recompress_deflate_stream / compress_zstd / decompress_zstd, each result \
+recreated_zlib_chunks / decompress_deflate_stream(verify in {false,true}) / recompress_deflate_stream (on the stream's own split or, for one stream in three, on corrections written through the analysis hook under foreign hash parameters: shift 4..6, mask up to 0xffff) / compress_zstd / decompress_zstd, each result \
 digest compared with the first-seen result for that (function, input); input slices are passed at varying addresses modulo 8; (2) concurrency: 2..16 threads released by a \
 barrier run generated per-thread sequences over the shared (Arc) pool, every result compared with the sequential model; \
 (4) soak: three streams through recompress 70 000 times each (interleaved, plus decompress(verify=true) every 16th round) per worker process, every result equal to the first; (3) cross-process: a child process recomputes all digests of the pool (fresh address space, fresh RandomState) and must \
@@ -46,8 +46,8 @@ pub struct Pool {
     pub files: Vec<Vec<u8>>,
 }
 
-/// operation kinds: 0 decompress(verify=false) 1 decompress(verify=true) 2 recompress of the
-/// stream's own split 3 expand 4 recreate of the file's own container 5 compress_zstd
+/// operation kinds: 0 decompress(verify=false) 1 decompress(verify=true) 2 recompress of a
+/// split of the stream (its own, or for one stream in three one written under foreign parameters) 3 expand 4 recreate of the file's own container 5 compress_zstd
 /// 6 decompress_zstd(compress_zstd)
 pub type Op = (u8, u8); // (kind, input index)
 
@@ -73,9 +73,49 @@ pub struct Derived {
     containers: Vec<Option<Vec<u8>>>,
 }
 
+/// For one stream in three (chosen by the stream's hash, so a replay needs nothing extra) the
+/// split handed to recompress is NOT the one decompress_deflate_stream returns but one made
+/// through the analysis hook under foreign parameters (zlib-style rolling hash with shift 4..6 and
+/// mask up to 0xffff, values the estimator never picks but the correction format can carry):
+/// recompress_deflate_stream is a public function of (plaintext, corrections), whoever wrote them.
+fn foreign_split(stream: &[u8]) -> Option<Split> {
+    use preflate_rs::verif_hooks as hooks;
+    let h = fnv64(stream);
+    if h % 3 != 0 {
+        return None;
+    }
+    let mut v = match guard(|| hooks::estimate(stream)) {
+        Ok(Ok(v)) if v.len() == hooks::PARAM_LEN && v[hooks::P_HASH_ALGORITHM] != 0 => v,
+        _ => {
+            let mut v = vec![0u32; hooks::PARAM_LEN];
+            v[hooks::P_ZLIB_COMPATIBLE] = 1;
+            v[hooks::P_WINDOW_BITS] = 15;
+            v[hooks::P_MAX_TOKEN_COUNT] = 16383;
+            v[hooks::P_MAX_DIST_3_MATCHES] = 4096;
+            v[hooks::P_GOOD_LENGTH] = 8;
+            v[hooks::P_MAX_LAZY] = 16;
+            v[hooks::P_NICE_LENGTH] = 128;
+            v[hooks::P_MAX_CHAIN] = 128;
+            v[hooks::P_MIN_LEN] = 3;
+            v
+        }
+    };
+    v[hooks::P_HASH_ALGORITHM] = 1;
+    v[hooks::P_HASH_SHIFT] = [5u32, 6, 4, 6][((h >> 8) % 4) as usize];
+    v[hooks::P_HASH_MASK] = [0xffffu32, 0x7fff, 0xffff, 0x3fff][((h >> 12) % 4) as usize];
+    match guard(|| hooks::roundtrip_with_params(stream, &v)) {
+        Ok(Some(Ok(r))) => Some(Split { plain: r.plain_text, corr: r.corrections, size: r.consumed }),
+        _ => None,
+    }
+}
+
 fn derive(pool: &Pool) -> Derived {
     Derived {
-        splits: pool.streams.iter().map(|s| lib_split(s, false).ok().and_then(|r| r.ok())).collect(),
+        splits: pool
+            .streams
+            .iter()
+            .map(|s| foreign_split(s).or_else(|| lib_split(s, false).ok().and_then(|r| r.ok())))
+            .collect(),
         containers: pool.files.iter().map(|f| lib_expand(f).ok().and_then(|r| r.ok())).collect(),
     }
 }
